@@ -135,6 +135,9 @@
 #define GHOSTS(X) GHOSTS_BASE(X) GHOSTS_C01(X) GHOSTS_C02(X) GHOSTS_C03(X) GHOSTS_C04(X) GHOSTS_C05(X) GHOSTS_C06(X) GHOSTS_C07(X) GHOSTS_C08(X) GHOSTS_C09(X) GHOSTS_C10(X) GHOSTS_C11(X) GHOSTS_C12(X) GHOSTS_C13(X) GHOSTS_C14(X) GHOSTS_C15(X) GHOSTS_C16(X) GHOSTS_C17(X) GHOSTS_C18(X) GHOSTS_C19(X) GHOSTS_SM(X)
 #define GHOST_DECL(T, n) T n;
 GHOSTS(GHOST_DECL)
+#ifndef LCAP
+#define LCAP 16
+#endif
 #ifndef VCAP
 #define VCAP 1024
 #endif
@@ -168,6 +171,8 @@ GHOSTS(GHOST_DECL)
 /* list/table views (used by loop invariants) */
 #define LIST_POS(l, i) (((l)->first + (i) >= (l)->max_size) ? (l)->first + (i) - (l)->max_size : (l)->first + (i))
 #define VIEW(l, i) ((l)->elements[LIST_POS(l, i)])
+#define WF_LIST_FIELDS(l) ((l)->max_size >= 1 && (l)->max_size <= LCAP && (l)->current_size <= (l)->max_size && \
+    (l)->first < (l)->max_size && (l)->last < (l)->max_size && (l)->last == LIST_POS(l, (l)->current_size == (l)->max_size ? 0 : (l)->current_size))
 #define TL(t) (&(t)->list)
 #define CMP_LOG_ASSIGNS g_cmp_n, g_last_key, g_last_res, g_wit_key, g_wit_res
 #define NPAIRS(t) (TL(t)->current_size / 2)
